@@ -1,14 +1,15 @@
 #!/usr/bin/env python3
-"""Run the registered checks against the seeded property-breaking changes under /verif/seeded/.
+"""Run the checks against the seeded property-breaking changes under /verif/seeded/.
 
-  python3 lib/seeded.py [id ...]        (default: all)
+  python3 lib/seeded.py [-j N] [id ...]        (default: all, 4 at a time)
 
-For each seeded/<id>/ (patch.diff + meta.json naming the property): /repo must be clean; the patch
-is applied (git apply), `./check <prop> --tier quick` is run, the outcome is written to
-seeded/<id>/result.json, and the tree is restored (git checkout + removal of files the patch
-added). Nothing is ever committed in /repo.
+For each seeded/<id>/ (patch.diff + meta.json naming the property and optionally "checks": [...],
+"tier"): a scratch git worktree of /repo's HEAD is created under /tmp, the patch is applied THERE
+(never in /repo), `VERIF_REPO=<worktree> ./check <prop> --tier quick` is run (the same check code,
+harness built with `replace github.com/dapr/kit => <worktree>`; no evidence is written in this
+mode), the outcome goes to seeded/<id>/result.json and the worktree is removed.
 """
-import json, os, re, subprocess, sys, time
+import concurrent.futures, json, os, shutil, subprocess, sys, time
 
 ROOT = os.path.dirname(os.path.dirname(os.path.abspath(__file__)))
 REPO = "/repo"
@@ -18,51 +19,58 @@ def run(cmd, **kw):
     return subprocess.run(cmd, stdout=subprocess.PIPE, stderr=subprocess.STDOUT, text=True, **kw)
 
 
-def main():
-    ids = sys.argv[1:] or sorted(d for d in os.listdir(os.path.join(ROOT, "seeded"))
-                                 if os.path.isdir(os.path.join(ROOT, "seeded", d)))
-    st = run(["git", "-C", REPO, "status", "--porcelain"]).stdout.strip()
-    if st:
-        print("/repo is not clean:\n" + st)
-        return 2
-    summary = []
-    for sid in ids:
-        d = os.path.join(ROOT, "seeded", sid)
-        meta = json.load(open(os.path.join(d, "meta.json")))
-        prop = meta["property"]
-        patch = os.path.join(d, "patch.diff")
-        added = re.findall(r"^\+\+\+ b/(\S+)", open(patch).read(), re.M)
-        r = run(["git", "-C", REPO, "apply", "--whitespace=nowarn", patch])
+def one(sid):
+    d = os.path.join(ROOT, "seeded", sid)
+    meta = json.load(open(os.path.join(d, "meta.json")))
+    prop = meta["property"]
+    patch = os.path.join(d, "patch.diff")
+    wt = "/tmp/seeded-wt-%s" % sid
+    work = "/tmp/seeded-work-%s" % sid
+    run(["git", "-C", REPO, "worktree", "remove", "--force", wt])
+    shutil.rmtree(work, ignore_errors=True)
+    r = run(["git", "-C", REPO, "worktree", "add", "--detach", wt, "HEAD"])
+    if r.returncode != 0:
+        return sid, prop, "worktree-failed", r.stdout[-300:]
+    t0 = time.time()
+    try:
+        r = run(["git", "-C", wt, "apply", "--whitespace=nowarn", patch])
         if r.returncode != 0:
-            print(sid, "patch does not apply:", r.stdout[-300:])
-            summary.append((sid, prop, "patch-does-not-apply"))
-            continue
-        t0 = time.time()
-        try:
-            checks = meta.get("checks") or [prop]
-            outs = {}
-            caught = False
-            for p in checks:
-                c = run([os.path.join(ROOT, "check"), p, "--tier", meta.get("tier", "quick")], cwd=ROOT)
-                line = next((l for l in c.stdout.splitlines() if l.startswith("VIOLATION")), "")
-                outs[p] = {"rc": c.returncode, "violation_line": line, "tail": c.stdout[-600:]}
-                caught = caught or (c.returncode == 1 and bool(line))
-        finally:
-            run(["git", "-C", REPO, "checkout", "--", "."])
-            for f in added:
-                full = os.path.join(REPO, f)
-                tracked = run(["git", "-C", REPO, "ls-files", "--error-unmatch", f]).returncode == 0
-                if not tracked and os.path.exists(full):
-                    os.remove(full)
-        res = {"id": sid, "property": prop, "caught": caught, "wall_s": round(time.time() - t0, 1), "checks": outs}
+            return sid, prop, "patch-does-not-apply", r.stdout[-300:]
+        outs, caught = {}, False
+        env = dict(os.environ, VERIF_REPO=wt, VERIF_WORK=work)
+        for p in meta.get("checks") or [prop]:
+            c = run([os.path.join(ROOT, "check"), p, "--tier", meta.get("tier", "quick")], cwd=ROOT, env=env)
+            line = next((l for l in c.stdout.splitlines() if l.startswith("VIOLATION")), "")
+            outs[p] = {"rc": c.returncode, "violation_line": line, "tail": c.stdout[-600:]}
+            caught = caught or (c.returncode == 1 and bool(line))
+        res = {"id": sid, "property": prop, "caught": caught, "wall_s": round(time.time() - t0, 1),
+               "repo_head": run(["git", "-C", REPO, "rev-parse", "--short", "HEAD"]).stdout.strip(),
+               "checks": outs}
         json.dump(res, open(os.path.join(d, "result.json"), "w"), indent=1)
-        concrete = any(o["violation_line"] and "no-failing-input-found" not in o["violation_line"] for o in outs.values())
-        summary.append((sid, prop, "CAUGHT" + (" (concrete replay)" if concrete else " (no-failing-input-found)") if caught else "MISSED"))
-        print(sid, prop, summary[-1][2], "%.0fs" % res["wall_s"])
-    st = run(["git", "-C", REPO, "status", "--porcelain"]).stdout.strip()
-    if st:
-        print("WARNING: /repo not clean after run:\n" + st)
-    return 0
+        concrete = any(o["violation_line"] and "no-failing-input-found" not in o["violation_line"]
+                       for o in outs.values())
+        verdict = ("CAUGHT" + (" (concrete replay)" if concrete else " (no-failing-input-found)")) if caught else "MISSED"
+        return sid, prop, verdict, "%.0fs" % res["wall_s"]
+    finally:
+        run(["git", "-C", REPO, "worktree", "remove", "--force", wt])
+        shutil.rmtree(work, ignore_errors=True)
+
+
+def main():
+    args = sys.argv[1:]
+    jobs = 4
+    if args[:1] == ["-j"]:
+        jobs = int(args[1])
+        args = args[2:]
+    ids = args or sorted(d for d in os.listdir(os.path.join(ROOT, "seeded"))
+                         if os.path.isfile(os.path.join(ROOT, "seeded", d, "meta.json")))
+    missed = 0
+    with concurrent.futures.ThreadPoolExecutor(max_workers=jobs) as ex:
+        for sid, prop, verdict, extra in ex.map(one, ids):
+            print(sid, prop, verdict, extra, flush=True)
+            missed += verdict == "MISSED"
+    run(["git", "-C", REPO, "worktree", "prune"])
+    return 1 if missed else 0
 
 
 if __name__ == "__main__":
